@@ -134,8 +134,8 @@ static void run_trace_header(int argc, char **argv) {
     conf.cmp = counting_cmp;
     vf_set_plan(plan);
     enum cc_stat s;
-    if (isset) s = useconf ? cc_treeset_new_conf(&conf, &set) : cc_treeset_new(counting_cmp, &set);
-    else s = useconf ? cc_treetable_new_conf(&conf, &tab) : cc_treetable_new(counting_cmp, &tab);
+    if (isset) s = VF_OUT(set, useconf ? cc_treeset_new_conf(&conf, &set) : cc_treeset_new(counting_cmp, &set));
+    else s = VF_OUT(tab, useconf ? cc_treetable_new_conf(&conf, &tab) : cc_treetable_new(counting_cmp, &tab));
     printf("new %s", vf_stat(s));
     iter_ok = 0;
     if (s == CC_OK) obs(0, 0); else { tab = NULL; set = NULL; printf(" |"); ledger(); }
